@@ -36,6 +36,11 @@ CHECKS = {
             'Every model is tabulated; declared function count, number/uniqueness/completeness of pair/embe/dens blocks, header n/x0/x1 and every value are compared.',
             'Trusted: TABEAM layout as encoded in mc/readers/eam.py; %f printing (1e-6 resolution).',
             'DESIGN.md 4/C05'),
+    'C19': (E1, 'exploration',
+            'bounded exhaustive enumeration on the real code: GULP and excel over the pair-model space and a (cutoff,nr) lattice; eam_adp / excel_eam / excel_eam_fs over EAM model spaces (all pair, dipole and quadrupole subsets for <= 3 elements); writeFuncFL over elements x grids; independent readers (GULP, setfl+adp token stream, funcfl, openpyxl) + reference model',
+            'Every case executed and every number compared: GULP rows/header/grid, ADP setfl prefix + unscaled u/w blocks with zero-fill in header order, funcfl header grid and Z(r)^2 back-conversion, Excel first column and every labelled cell.',
+            'Trusted: format rules encoded in mc/readers, openpyxl reader, reference closed forms.',
+            'DESIGN.md 4/C19'),
 }
 
 NOT_YET = 'check not built yet in this revision of /verif (bounded exhaustive exploration applies; see DESIGN.md section 4)'
